@@ -661,7 +661,7 @@ def resolved(c, f, expr, at):
     return expr
 
 
-def rewrite_live_source_rules(c, rule, single, rewrite):
+def rewrite_live_source_rules(c, rule, single, rewrite, wipe=None):
     """The value the table wipe re-inserts for a key that is maintained at
     run time must be read from the state the run-time writer keeps current:
     every function that calls the single-key writer with a value (not the
@@ -674,13 +674,27 @@ def rewrite_live_source_rules(c, rule, single, rewrite):
         v = rewrite[key]
         attrs = set()
         if v is not None:
-            for n in ast.walk(v):
-                if isinstance(n, ast.Attribute) and not isinstance(
-                        c.idx.parent.get(id(n)), ast.Attribute):
-                    attrs.add(n.attr)
-            if isinstance(v, ast.Name) or any(
-                    isinstance(n, ast.Call) and norm(n.func) == 'getattr'
-                    for n in ast.walk(v)) or not attrs:
+            # the value and, through locals of the rewriting function, what
+            # it is computed from (`pool = schd.pool; hp = pool.hold_point`)
+            exprs, seen_names = [v], set()
+            k = 0
+            while k < len(exprs):
+                for n in ast.walk(exprs[k]):
+                    if isinstance(n, ast.Name) and n.id not in seen_names \
+                            and wipe is not None:
+                        seen_names.add(n.id)
+                        for a in ast.walk(wipe.node):
+                            if isinstance(a, ast.Assign) and any(
+                                    isinstance(t, ast.Name) and t.id == n.id
+                                    for t in a.targets):
+                                exprs.append(a.value)
+                k += 1
+            for e in exprs:
+                for n in ast.walk(e):
+                    if isinstance(n, ast.Attribute):
+                        attrs.add(n.attr)
+            if any(isinstance(n, ast.Call) and norm(n.func) == 'getattr'
+                   for e in exprs for n in ast.walk(e)) or not attrs:
                 # for key in (...): value = getattr(schd.options, key, None)
                 kv = c.K.class_attr('WorkflowDatabaseManager', key)
                 if isinstance(kv, str):
